@@ -25,7 +25,7 @@ PATTERN_ONLY = "https://sp.example.org/not-an-endpoint"   # matches the pattern 
 
 IRT = ("match", "unknown", "absent")
 SCD = ("match", "different", "absent")
-DEST = ("own", "foreign", "absent", "pattern-only")
+DEST = ("own", "foreign", "absent", "pattern-only", "own-plus-suffix", "own-prefix", "own-other-case", "own-with-query")
 AUD = ("none", "one-naming", "one-foreign", "two-both-naming", "two-one-foreign", "two-foreign-first", "empty-restriction", "naming-among-several-audiences")
 RECIP = ("own", "foreign", "entityid")
 
@@ -77,7 +77,9 @@ def run_case(case, ctx):
     xml = fed.issue(idp, {"givenName": ["Ann"]}, in_response_to="id-req-1", sign_response=False)
     d = xk.Doc(xml)
     d = d.set_attr(d.root, "InResponseTo", {"match": "id-req-1", "unknown": "id-never-sent", "absent": None}[case["irt"]])
-    d = d.set_attr(d.root, "Destination", {"own": OWN_ACS, "foreign": FOREIGN, "absent": None, "pattern-only": PATTERN_ONLY}[case["dest"]])
+    d = d.set_attr(d.root, "Destination", {"own": OWN_ACS, "foreign": FOREIGN, "absent": None, "pattern-only": PATTERN_ONLY,
+                                           "own-plus-suffix": OWN_ACS + "/x", "own-prefix": OWN_ACS[:-5], "own-other-case": OWN_ACS.replace("/acs/", "/ACS/"),
+                                           "own-with-query": OWN_ACS + "?x=1"}[case["dest"]])
     scd = d.find(xk.SAML, "SubjectConfirmationData")[0]
     d = d.set_attr(scd, "InResponseTo", {"match": "id-req-1", "different": "id-other-request", "absent": None}[case["scd"]])
     scd = d.find(xk.SAML, "SubjectConfirmationData")[0]
@@ -107,7 +109,7 @@ def run_case(case, ctx):
     if case["dest"] in ("absent",):
         r_dest = True
     elif case["pat"]:
-        r_dest = case["dest"] in ("own", "pattern-only")
+        r_dest = case["dest"] != "foreign"            # everything else starts with https://sp.example.org/
     else:
         r_dest = case["dest"] == "own"
     r_aud = case["aud"] in ("none", "one-naming", "two-both-naming", "naming-among-several-audiences")
